@@ -28,3 +28,41 @@ Proof.
   exists l1, l2. repeat split; try assumption. congruence.
 Qed.
 Print Assumptions C10_split_every_pair.
+
+(* shuffle staging (max_branch -> branch factor k and stage count): any two admissible stagings deliver, at
+   every requested output position, the same rows up to order; the single-stage shuffle likewise *)
+From Coq Require Import Permutation.
+From DX Require Import Shuffle ShuffleProofs.
+Theorem C10_max_branch_irrelevant : forall (payload : Type) (n_in n_out k1 s1 k2 s2 : nat) (sel : list nat) (f1 f2 : bool) (Ps : list (list (row payload))),
+  length Ps = n_in -> 1 <= n_in -> n_in <= n_out ->
+  2 <= k1 -> n_in <= k1 ^ s1 -> 1 <= s1 -> 2 <= k2 -> n_in <= k2 ^ s2 -> 1 <= s2 ->
+  (forall p, In p sel -> p < n_out) -> (forall P r, In P Ps -> In r P -> target r < n_out) ->
+  exists o1 o2, exec_shuffle (task_layer n_in n_out k1 s1 sel f1) Ps = Some o1 /\
+                exec_shuffle (task_layer n_in n_out k2 s2 sel f2) Ps = Some o2 /\
+                forall i, i < length sel -> Permutation (nth i o1 []) (nth i o2 []).
+Proof.
+  intros payload n_in n_out k1 s1 k2 s2 sel f1 f2 Ps Hl H1 H2 Hk1 Hp1 Hs1 Hk2 Hp2 Hs2 Hsel Ht.
+  destruct (staged_route payload n_in n_out k1 s1 sel f1 Ps Hl H1 H2 Hk1 Hp1 Hs1 Hsel Ht) as [o1 [E1 [_ P1]]].
+  destruct (staged_route payload n_in n_out k2 s2 sel f2 Ps Hl H1 H2 Hk2 Hp2 Hs2 Hsel Ht) as [o2 [E2 [_ P2]]].
+  exists o1, o2. split; [exact E1|]. split; [exact E2|].
+  intros i Hi. eapply Permutation_trans; [apply P1; exact Hi|]. apply Permutation_sym. apply P2. exact Hi.
+Qed.
+Print Assumptions C10_max_branch_irrelevant.
+
+(* staged vs single-stage *)
+Theorem C10_staged_vs_simple : forall (payload : Type) (n_in n_out k s : nat) (sel : list nat) (f1 f2 : bool) (Ps : list (list (row payload))),
+  length Ps = n_in -> 1 <= n_in -> n_in <= n_out -> 2 <= k -> n_in <= k ^ s -> 1 <= s ->
+  (forall p, In p sel -> p < n_out) -> (forall P r, In P Ps -> In r P -> target r < n_out) ->
+  exists o1, exec_shuffle (task_layer n_in n_out k s sel f1) Ps = Some o1 /\
+             exec_shuffle (simple_layer n_in n_out sel f2) Ps = Some (map (routed Ps) sel) /\
+             forall i, i < length sel -> Permutation (nth i o1 []) (nth i (map (routed Ps) sel) []).
+Proof.
+  intros payload n_in n_out k s sel f1 f2 Ps Hl H1 H2 Hk Hp Hs Hsel Ht.
+  destruct (staged_route payload n_in n_out k s sel f1 Ps Hl H1 H2 Hk Hp Hs Hsel Ht) as [o1 [E1 [_ P1]]].
+  exists o1. split; [exact E1|]. split; [apply simple_route; assumption|].
+  intros i Hi.
+  assert (E : nth i (map (routed Ps) sel) [] = routed Ps (nth i sel 0)).
+  { rewrite (nth_indep (map (routed Ps) sel) [] (routed Ps 0)); [apply map_nth|rewrite map_length; exact Hi]. }
+  rewrite E. apply P1. exact Hi.
+Qed.
+Print Assumptions C10_staged_vs_simple.
